@@ -122,7 +122,9 @@ def _need_actions(res_list, actions, what):
 # part A
 
 def random_graph(rng, n):
-    dens = rng.choice([0.15, 0.25, 0.4])
+    # expected out-degree 1 .. 2.2: the algorithm re-explores nodes inside open loops, the number of
+    # steps explodes with the number of simple paths (dense strongly connected graphs)
+    dens = min(0.45, rng.choice([1.0, 1.5, 2.2]) / n)
     succ = []
     for k in range(1, n + 1):
         row = [j for j in range(1, n + 1) if rng.random() < dens]
@@ -160,7 +162,7 @@ def part_a(tier, seed, rng, rep, cov, jobs, tj):
     wd = core.subdir("c46")
     # --- random larger graphs: real .pxd trees first (their successor order is whatever the real
     #     cimported_files() produces), then TLC in file mode on exactly those ordered graphs
-    sizes = [(6, 30), (10, 20)] if quick else [(5, 150), (8, 150), (12, 100)]
+    sizes = [(6, 30), (10, 20)] if quick else [(5, 200), (8, 200), (12, 100)]
     rgraphs = []
     gid = 1000
     for n, cnt in sizes:
@@ -184,8 +186,11 @@ def part_a(tier, seed, rng, rep, cov, jobs, tj):
                              {"graph": g, "observed": o["succ"], "node": k + 1})
     # TLC file mode per size
     by_n = collections.defaultdict(list)
+    plans_per_graph = 4
     for g in rgraphs:
-        by_n[g["n"]].append(orders[g["id"]]["succ"])
+        for _ in range(plans_per_graph):
+            by_n[g["n"]].append({"succ": orders[g["id"]]["succ"],
+                                 "plan": [rng.randint(1, g["n"]) for _ in range(rng.choice([2, 3, 4]))]})
     for n, gs in by_n.items():
         f = os.path.join(wd, "filegraphs_%d.ndjson" % n)
         core.write_ndjson(f, gs)
@@ -212,8 +217,8 @@ def part_a(tier, seed, rng, rep, cov, jobs, tj):
         filecases = []
         for n in by_n:
             r = tj.get("file%d" % n)
-            cov["tlc"].append(dict(r.summary(), config="DepTree file mode: %d random graphs on %d nodes, all query pairs" % (len(by_n[n]), n)))
-            if len(r.printed) < len(by_n[n]):
+            cov["tlc"].append(dict(r.summary(), config="DepTree file mode: %d (random graph, random query sequence of length 2-4) cases on %d nodes" % (len(by_n[n]), n)))
+            if len(r.printed) < len({json.dumps(x) for x in by_n[n]}):
                 core.die("file-mode dump too small for n=%d: %d" % (n, len(r.printed)))
             filecases += r.printed
         for c in cases3 + filecases:
@@ -558,8 +563,8 @@ def part_c(tier, seed, rng, rep, cov, jobs, tj):
         # binding demonstration: an expectation with an additional real statement must be rejected
         probe = core.Reporter(PROP)
         nb = 0
-        for c in cases[:400]:
-            if not any(rr["form"] == "cim_b" for rr in c["reals"]) and c["loc"] == "top":
+        for c in cases:
+            if "b.pxd" not in L.src_expected(c) and "b.pxd" not in outs[c["id"]].get("deps", ["b.pxd"]):
                 c2 = dict(c, reals=c["reals"] + [{"form": "cim_b", "ctx": "bol"}])
                 nb += 1
                 if src_report(probe, c2, outs[c["id"]]) != 1:
@@ -609,7 +614,7 @@ def run(tier, seed):
         "distinct_nontrivial": a["nontrivial"] + b["nontrivial"] + c["nontrivial"],
         "exhaustive": True,
         "rule": "A: query histories published by TLC (every graph on 3 nodes x every successor permutation x every query "
-                "sequence of length 3; random 5-12 node graphs x every query pair) replayed on the real DependencyTree "
+                "sequence of length 3; random 5-12 node graphs x random query sequences) replayed on the real DependencyTree "
                 "(injected edges and real .pxd trees), plus the 4-node sweep on the real object; non-trivial = graph has a cycle "
                 "and the history queries >= 2 different nodes.  B: TLC-simulated edit/touch/cythonize histories replayed with the real "
                 "cythonize() in fresh processes; non-trivial = some later cythonize regenerates a proper non-empty subset of the modules.  "
